@@ -77,6 +77,13 @@ M = [
 ]
 
 
+REVERTS = {
+    "revert-44be0a5": ["C19"], "revert-884e0d5": ["C18"], "revert-9f07d63": ["C16"], "revert-4a8197d": ["C13"], "revert-2e6440a": ["C13"], "revert-022154d": ["C03"],
+    "revert-9b0fffd": ["C16", "C01"], "revert-9d40251": ["C09"], "revert-3a105e2": ["C19"], "revert-f715ded": ["C19"], "revert-10ab5cf": ["C10"], "revert-390eafb": ["C16", "C03"],
+    "revert-11c6dec": ["C14"], "revert-fe0f806": ["C14", "C02"], "revert-6d78151": ["C14"], "revert-7e7de5b": ["C07", "C03"], "revert-a340ec1": ["C17", "C19"], "revert-96b91e3": ["C05", "C01"],
+}
+
+
 def make():
     wt = tempfile.mkdtemp(prefix="own-", dir="/tmp")
     os.rmdir(wt)
@@ -103,8 +110,11 @@ def make():
 def run(names):
     resf = os.path.join(OWN, "RESULTS.json")
     results = json.load(open(resf)) if os.path.exists(resf) else {}
-    for name, f, old, new, exp in M:
+    todo = [(n, e) for n, _f, _o, _n, e in M] + sorted(REVERTS.items())
+    for name, exp in todo:
         if names and name not in names:
+            continue
+        if not names and name in results and results[name].get("suite"):
             continue
         if not exp:
             continue
